@@ -49,6 +49,7 @@ pub fn check() -> Check {
             Family { name: "stream_build", gen: gen_stream_build, run: run_stream_build },
             Family { name: "stream_read", gen: gen_stream_read, run: run_stream_read },
             Family { name: "s2k", gen: gen_s2k, run: run_s2k },
+            Family { name: "armor_lines", gen: gen_armor_lines, run: run_armor_lines },
         ],
         assumptions: vec![
             "wall-clock time is reported but never judged; work is counted in seam calls and bytes allocated",
@@ -779,4 +780,93 @@ fn run_s2k(plan: &Value, rec: &mut Rec) {
         },
     }
     let _ = new_len;
+}
+
+// ------------------------------------------------------------------ (g) armor: unterminated / oversized lines
+
+fn gen_armor_lines(ctx: &GenCtx) -> Vec<Value> {
+    let mut v = Vec::new();
+    let sizes: &[usize] = if ctx.tier == Tier::Thorough { &[1 << 12, 1 << 16, 1 << 18, 1 << 20] } else { &[1 << 12, 1 << 16, 1 << 18] };
+    for what in ["header_value", "header_key", "body_line", "footer", "leading_text", "cleartext_line"] {
+        for &n in sizes {
+            for cap in [64usize, 8192] {
+                if n > (1 << 18) && cap == 64 {
+                    continue;
+                }
+                v.push(json!({"what": what, "n": n, "cap": cap}));
+            }
+        }
+    }
+    v
+}
+
+fn thread_cpu_seconds() -> f64 {
+    let mut ts = libc::timespec { tv_sec: 0, tv_nsec: 0 };
+    #[allow(unsafe_code)]
+    unsafe {
+        libc::clock_gettime(libc::CLOCK_THREAD_CPUTIME_ID, &mut ts);
+    }
+    ts.tv_sec as f64 + ts.tv_nsec as f64 * 1e-9
+}
+
+fn armor_text(what: &str, n: usize) -> Vec<u8> {
+    let filler = "Q".repeat(n);
+    match what {
+        "header_value" => format!("-----BEGIN PGP MESSAGE-----\nComment: {filler}"),
+        "header_key" => format!("-----BEGIN PGP MESSAGE-----\n{filler}"),
+        "body_line" => format!("-----BEGIN PGP MESSAGE-----\n\n{filler}"),
+        "footer" => format!("-----BEGIN PGP MESSAGE-----\n\nAAAA\n={filler}"),
+        "leading_text" => format!("{filler}\n{filler}"),
+        _ => format!("-----BEGIN PGP SIGNED MESSAGE-----\nHash: SHA256\n\n{filler}"),
+    }
+    .into_bytes()
+}
+
+fn armor_parse_all(bytes: &Arc<Vec<u8>>, cap: usize) {
+    let mk = || seams::sim_bufread(bytes.clone(), Sched::Full, cap, vec![]).0;
+    let mut buf = [0u8; 4096];
+    let mut d = pgp::armor::Dearmor::new(mk());
+    while let Ok(k) = d.read(&mut buf) {
+        if k == 0 {
+            break;
+        }
+    }
+    let _ = Message::from_armor(mk());
+    let _ = SignedPublicKey::from_armor_single_buf(mk());
+    let _ = pgp::composed::CleartextSignedMessage::from_armor_buf(mk(), Default::default());
+}
+
+fn run_armor_lines(plan: &Value, rec: &mut Rec) {
+    let n = jusize(plan, "n");
+    let what = jstr(plan, "what");
+    let bytes = Arc::new(armor_text(what, n));
+    let len = bytes.len() as u64;
+    let cap = jusize(plan, "cap");
+    let mut h = Fnv::default();
+    h.str(&plan.to_string());
+    rec.eval(h.0, true);
+    rec.count(&format!("fault:F-declare:armor-{what}"));
+    rec.sample(json!({"what": what, "bytes": len, "cap": cap}));
+    let c0 = thread_cpu_seconds();
+    let m = measured(0, || armor_parse_all(&bytes, cap));
+    let t_full = thread_cpu_seconds() - c0;
+    judge(rec, plan, plan.clone(), &format!("armor-line:{what}"), &format!("armor input with a {n}-octet unterminated {what}"), len, 0, &m);
+    // Work: thread CPU time is only consulted when it is large in absolute terms (>= 0.4 s for
+    // <= 256 KiB of input, i.e. three orders of magnitude above a linear scan), and then judged
+    // by scaling: a quarter of the input must cost clearly more than a sixteenth of the time.
+    if n >= (1 << 18) && cap == 64 && t_full >= 0.4 {
+        let quarter = Arc::new(armor_text(what, n / 4));
+        let c1 = thread_cpu_seconds();
+        let _ = guard(|| armor_parse_all(&quarter, cap));
+        let t_quarter = (thread_cpu_seconds() - c1).max(1e-4);
+        rec.count("probe:time-scaling-evaluated");
+        if t_full > 10.0 * t_quarter {
+            rec.violation(
+                "time-not-linear",
+                &format!("armor-line:{what}"),
+                format!("armor input with an unterminated {what}: {n} octets cost {:.2} s of CPU, {} octets {:.3} s (x{:.1} for x4 input: super-linear; read_from_buf re-parses everything buffered so far at every fill of {cap} octets)", t_full, n / 4, t_quarter, t_full / t_quarter),
+                plan.clone(),
+            );
+        }
+    }
 }
